@@ -64,6 +64,11 @@ CHECKS = {
          "depth 2 for unary chains) are choice variables enumerated exhaustively; marshaller/unmarshaller/codec are built natively; "
          "failures are identified by the typelib function that raised; pass-through roots are probed with an identity sentinel and "
          "rebuilt routines compared on a probe vector.", "4/C15", "CrossHair/z3 exhaustive enumeration of annotation derivations (choice variables), native replay"),
+ "C12": ("E3 choice-symbolic, run natively (CrossHair removes memoisation under tracing): bounded model checking of the stateful API - "
+         "every sequence of length <= 3 over an alphabet of operation instances with equal-but-distinct operands, result / input mutation "
+         "and cache clearing is selected by choice variables enumerated exhaustively; each operation's outcome is compared with the same "
+         "operation run cold; containers are checked for identity with earlier results / inputs; a failing history is attributed to the "
+         "earlier operation whose removal makes it vanish.", "4/C12", "CrossHair/z3 exhaustive enumeration of operation sequences (bounded model checking by choice variables), native replay"),
 }
 NA = {
  "C17": "flat catalogue of CPython type objects compared with CPython's own issubclass/typing internals: neither side can be encoded for a solver and there is no value, shape, state or history to make symbolic (DESIGN.md section 7)",
